@@ -34,7 +34,7 @@ static const variant_t VARS[6] = {
 
 
 static int F_RT, F_MODEL, F_TAMPER, F_ZERO, F_PAIRS;
-static unsigned long long n_special;
+static unsigned long long n_special, n_shared_inputs;
 static unsigned long long n_cases, n_enc, n_dec, n_verdict_acc, n_verdict_rej, n_model_cmp, n_bytes_cmp,
     n_inplace, n_forged_ok, n_zero_regions, n_zero_bytes, n_guard_end, n_guard_start, n_mid, n_null, n_pairs,
     n_ctl_pairs, n_short, n_checktag, n_long, n_adjacent;
@@ -814,6 +814,10 @@ static void run_case(const args_t *a, long idx, const variant_t *v, size_t adlen
         if (adlen) memcpy(ad, OV.ad, adlen);
         if (mlen) memcpy(m, OV.m, mlen);
     }
+    /* two INPUT parameters may legally be the same memory: the associated data and the plaintext (equal lengths), the
+     * nonce inside the key buffer.  Contents are what they are; only the pointers coincide. */
+    if (!OV.active && adlen == mlen && mlen && idx % 5 == 2) { ad = m; ++n_shared_inputs; }
+    if (!OV.active && idx % 7 == 3) { n = k + (idx % 4); ++n_shared_inputs; }
     gb_readonly(&gK); gb_readonly(&gN); gb_readonly(&gAD); gb_readonly(&gM);
 
     scratch_need(2 * (mlen + 16));
@@ -1146,7 +1150,7 @@ int main(int argc, char **argv)
     /* (the internal comparison primitive is deliberately not called directly: its signature is not part of the API,
      *  and the batteries above drive it through all six decrypt functions with every differing byte position) */
 
-    emit_stat("evaluations", n_cases); if (n_special) emit_stat("special_corpus_cases", n_special);
+    emit_stat("evaluations", n_cases); if (n_special) emit_stat("special_corpus_cases", n_special); emit_stat("cases_with_two_inputs_sharing_memory", n_shared_inputs);
     emit_stat("encrypt_calls", n_enc); emit_stat("decrypt_calls", n_dec);
     emit_stat("verdicts_expected_accept", n_verdict_acc); emit_stat("verdicts_expected_reject", n_verdict_rej);
     emit_stat("model_comparisons", n_model_cmp); emit_stat("bytes_compared", n_bytes_cmp);
